@@ -59,6 +59,16 @@ MUTATIONS = [
     ("mod-relative-to-cwd", "src/fcp/parser.py", 'filename = self.path / (".".join(tree.children)', 'filename = (self.path if len(tree.children) == 1 else self.path.parent) / (".".join(tree.children)', ["C20", "C08"]),
     ("mod-missing-file-unnamed", "src/fcp/parser.py", 'return error(f"File not found: {pathlib.Path(e.filename).name}")', 'return error("File not found")', ["C20"]),
     ("mod-syntax-error-unnamed", "src/fcp/parser.py", "MetaData(e.line, e.line, e.column, e.column, 0, 0, str(filename))\n                ),\n            )\n\n        fcp = FcpV2Transformer", "MetaData(e.line, e.line, e.column, e.column, 0, 0, str(self.filename))\n                ),\n            )\n\n        fcp = FcpV2Transformer", ["C20"]),
+    ("codegen-no-attempt", "src/fcp/codegen.py", "self.verifier.verify(fcp).attempt()", "self.verifier.verify(fcp)", ["C10"]),
+    ("codegen-gen-before-verify", "src/fcp/codegen.py", "        self.verifier.verify(fcp).attempt()\n\n        templates = self._get_templates(template_dir)\n        skels = self._get_skels(skel_dir)\n\n        generator.gen(fcp, templates, skels, output_path)\n", "        templates = self._get_templates(template_dir)\n        skels = self._get_skels(skel_dir)\n\n        generator.gen(fcp, templates, skels, output_path)\n        self.verifier.verify(fcp).attempt()\n", ["C10"]),
+    ("codegen-handle-ignores-type", "src/fcp/codegen.py", 'if result.get("type") == "file":', 'if result.get("type") != "print":', ["C10"]),
+    ("verifier-first-node-only", V, "            for node in fcp.get(category).attempt():\n", "            for node in fcp.get(category).attempt()[:2]:\n", ["C10", "C09"]),
+    ("verifier-signal-block-unchecked", V, "        for category in self.categories:\n            self.run_checks(category, fcp).attempt()", "        for category in self.categories:\n            if category == \"signal_block\":\n                continue\n            self.run_checks(category, fcp).attempt()", ["C10"]),
+    ("reflection-minmax-swapped", "src/fcp/specs/struct_field.py", '"min_value": self.min_value,\n            "max_value": self.max_value,', '"min_value": self.max_value,\n            "max_value": self.min_value,', ["C12"]),
+    ("reflection-chain-reversed", "src/fcp/specs/type.py", '        ] + self.underlying_type.reflection()\n\n\n@serde(type_check=strict)\nclass DynamicArrayType', '        ][::-1] + self.underlying_type.reflection()\n\n\n@serde(type_check=strict)\nclass DynamicArrayType', ["C12"]),
+    ("reflection-array-size-dropped", "src/fcp/specs/type.py", '                "size": self.size,', '                "size": 1 if self.size == 2 else self.size,', ["C12"]),
+    ("reflection-fieldid-u16", "src/fcp/reflection/reflection.fcp", "field_id @1: u32,", "field_id @1: u16,", ["C12"]),
+    ("reflection-signal-fields-dropped", "src/fcp/specs/signal_block.py", "                for name, value in self.fields.items()", "                for name, value in list(self.fields.items())[:1]", ["C12"]),
     ("serde-array-last-elem", S, "    for i in range(type.size):\n        _encode(buffer, fcp, type.underlying_type, data[i])", "    for i in range(type.size):\n        _encode(buffer, fcp, type.underlying_type, data[min(i, 1)])", ["C01", "C02"]),
 ]
 
